@@ -416,8 +416,41 @@ def r10_step_chaining(run, F):
     run.ob("R10-STEP-CHAINING", "result is the accumulated value", ok, F.where(b), "generate_word_deref returns Some(accumulated value)")
 
 
+def r11_immediate_parameter_index(run, F):
+    """A by-value parameter is its own storage: when a reference starts at a parameter and its first (automatic) dereference is
+    followed by an access, the GEP needs a leading zero index that a load would otherwise have provided.  In the
+    Autoderef/Autoview arm of generate_storage_address, the arms of `match steps.peek()` for the two kinds of access
+    (Element, Member) are siblings: each pushes `const_i32(0)` onto the indices under a test of the immediate-parameter flag
+    (the bool local that is set where the base is found among the parameters).  The Member arm had it, the Element arm did
+    not: `x[0]` with `x: &[2]i32` returned the whole array."""
+    cands = [x for p, x in F.lib.bodies.items() if p.endswith("::generate_storage_address")]
+    run.require(len(cands) == 1, "generate_storage_address not found")
+    b = cands[0]
+    flag_lids = set()
+    for n in walk(b["hir"]):
+        if n.get("k") == "Assign" and hirq.unwrap_trivial(n["rhs"]).get("v") is True:
+            l = hirq.unwrap_trivial(n["lhs"])
+            if l.get("k") == "Path" and l.get("rk") == "Local" and str(F.lib.ty(l.get("t"))) == "bool":
+                flag_lids.add(l.get("lid"))
+    peeks = [m for m in hirq.matches(b["hir"]) if any(c.get("k") == "MethodCall" and c.get("name") == "peek" for c in hirq.calls(m["scrut"]))]
+    run.require(len(peeks) == 1 and flag_lids, "generate_storage_address: `match steps.peek()` or the immediate-parameter flag was not found")
+    for kind in ("Element", "Member"):
+        arms = [a for a in peeks[0]["arms"] if any(str(x.get("ctor_of") or x.get("res") or "").endswith("ReferenceStep::" + kind) for alt in hirq.pat_alts(a["pat"]) for x in walk(alt))]
+        ok = False
+        for a in arms:
+            for n in walk(a["body"]):
+                if n.get("k") == "If" and any(x.get("k") == "Path" and x.get("lid") in flag_lids for x in walk(n["cond"])):
+                    pushes = [c for c in hirq.calls(n["then"]) if c.get("k") == "MethodCall" and c.get("name") == "push"]
+                    if any(any(hirq.unwrap_trivial(y).get("v") == 0 for x in hirq.calls(c) if (hirq.callee(x) or "").endswith("const_i32") for y in x.get("a", [])) for c in pushes):
+                        ok = True
+        run.ob("R11-IMMEDIATE-PARAMETER-INDEX", kind, ok and len(arms) == 1, F.where(b, arms[0]) if arms else F.where(b),
+               "after the automatic dereference of an immediate parameter, a following %s access needs the leading zero index "
+               "(push const_i32(0) under the immediate-parameter flag), as its sibling has" % kind)
+
+
 def check(run):
     F = run.facts("B")
+    r11_immediate_parameter_index(run, F)
     r10_step_chaining(run, F)
     r1_binary(run, F)
     r2_comparison(run, F)
